@@ -27,6 +27,7 @@ RULE = ('(A) Hypothesis draws API-built objects: signatures (24 kinds x option s
         'body with trailing data; (B) accepted packet whose first serialisation differs from the input or that uses a non-default header form; distinct by (tag, version, header '
         'form, algorithm/usage, size class).')
 RULE += ' Header forms include partial chunks closed by a five-octet length; protected secret-key packets are unprotect()ed in place and must serialise unchanged. Builders also for secret keys of unknown algorithms and in the legacy protection form, empty bodies, unhashed flag subpackets with undefined bits; copies of parsed packets and of built (also encrypted) messages must serialise identically; API values that overflow fixed-width fields are either refused or emit parseable packets; the reference\'s view of every subpacket value is unchanged by re-serialisation.'
+RULE += ' Card stubs with an empty serial number; signature objects handed out by verify() (incl. the primary-key binding signature embedded in a subkey binding) are emitted one by one and must each be one well-framed signature packet.'
 ASSUMPTIONS = ['refpgp.wire splitter frames packets independently', 'field values are compared through a generic snapshot of the object graph (public and private attributes, except '
                'the header and caches of received octets)', 'packet tag 0 is never generated (RFC 4880: must not be used)']
 
